@@ -56,6 +56,7 @@ type FuncContract struct {
 	Safety        []string
 	Variant       string
 	NaNParams     []string
+	Nullable      []string
 }
 
 type SpecFunc struct {
@@ -277,10 +278,21 @@ func parseFuncDirective(fc *FuncContract, word, rest, file string, line int) {
 		fc.PanicsAllowed = strings.TrimSpace(rest) == "allowed"
 	case "noalias":
 		fc.NoAlias = true
+	case "nullable":
+		fc.Nullable = append(fc.Nullable, splitNames(rest)...)
 	case "nan":
 		fc.NaNParams = append(fc.NaNParams, strings.Fields(rest)...)
 	case "safety":
 		fc.Safety = append(fc.Safety, strings.Fields(rest)...)
+	case "callsite":
+		// callsite CALLEE [label] expr over arg0..argN
+		f := strings.SplitN(rest, " ", 2)
+		if len(f) != 2 {
+			fatalf("%s:%d: bad callsite", file, line)
+		}
+		cl := mk("callsite", strings.TrimSpace(f[1]), -1)
+		cl.Callee = f[0]
+		fc.Clauses = append(fc.Clauses, cl)
 	case "callarg":
 		// callarg fnparam [label] expr-over-arg
 		f := strings.SplitN(rest, " ", 2)
